@@ -34,6 +34,7 @@ type gwWorld struct {
 	mu      sync.Mutex
 	fwded   []server.GatewayPacket
 	rcvd    []string
+	lastRTT time.Duration
 	btoken  uint16
 }
 
@@ -143,6 +144,8 @@ func (w *gwWorld) addrFor(i int) *net.UDPAddr {
 func (w *gwWorld) sync() bool {
 	w.btoken++
 	pkt := []byte{2, byte(w.btoken >> 8), byte(w.btoken), 2, 0xff, 0xff, 0xff, 0xff, 0xff, 0xff, 0xff, 0xfe}
+	t0 := time.Now()
+	defer func() { w.lastRTT = time.Since(t0) }()
 	w.barrier.WriteToUDP(pkt, w.addr())
 	buf := make([]byte, 64)
 	deadline := time.Now().Add(3 * time.Second)
@@ -163,7 +166,11 @@ func (w *gwWorld) sync() bool {
 func (w *gwWorld) collect() ([]string, []server.GatewayPacket) {
 	// the barrier's acknowledgement is sent after everything else, but to another socket: give the
 	// kernel and the reader goroutines a moment (a mismatch is re-run by bin/check before it is believed)
-	time.Sleep(4 * time.Millisecond)
+	grace := 4*time.Millisecond + 3*w.lastRTT // on a loaded machine the reader goroutines are late as well
+	if grace > 300*time.Millisecond {
+		grace = 300 * time.Millisecond
+	}
+	time.Sleep(grace)
 	w.mu.Lock()
 	got := w.rcvd
 	w.rcvd = nil
@@ -222,6 +229,7 @@ type rxEntry struct {
 	data       []byte
 	badB64     bool
 	extraField bool
+	omit       int // bit set of optional numeric keys left out of the entry: 1 rssi, 2 lsnr, 4 tmst, 8 chan, 16 rfch
 }
 
 func entryJSON(e rxEntry) string {
@@ -233,8 +241,52 @@ func entryJSON(e rxEntry) string {
 	if e.extraField {
 		extra = `,"foo":{"bar":[1,2,3]}`
 	}
-	return fmt.Sprintf(`{"time":"2017-02-01T23:55:55.233Z","tmst":%d,"freq":868.1,"chan":%d,"rfch":%d,"modu":"LORA","datr":"%s","codr":"4/5","rssi":%d,"lsnr":%s,"size":%d,"data":"%s"%s}`,
-		e.tmst, e.ch, e.rfch, e.datr, e.rssi, e.lsnr, len(e.data), d, extra)
+	if e.omit == 0 {
+		return fmt.Sprintf(`{"time":"2017-02-01T23:55:55.233Z","tmst":%d,"freq":868.1,"chan":%d,"rfch":%d,"modu":"LORA","datr":"%s","codr":"4/5","rssi":%d,"lsnr":%s,"size":%d,"data":"%s"%s}`,
+			e.tmst, e.ch, e.rfch, e.datr, e.rssi, e.lsnr, len(e.data), d, extra)
+	}
+	// an entry that leaves optional keys out (FSK entries carry no lsnr, the per-antenna layout no top-level rssi/lsnr):
+	// each missing key reads as the zero value, whatever earlier datagrams carried
+	parts := []string{`"time":"2017-02-01T23:55:55.233Z"`}
+	if e.omit&4 == 0 {
+		parts = append(parts, fmt.Sprintf(`"tmst":%d`, e.tmst))
+	}
+	parts = append(parts, `"freq":868.1`)
+	if e.omit&8 == 0 {
+		parts = append(parts, fmt.Sprintf(`"chan":%d`, e.ch))
+	}
+	if e.omit&16 == 0 {
+		parts = append(parts, fmt.Sprintf(`"rfch":%d`, e.rfch))
+	}
+	parts = append(parts, `"modu":"LORA"`, fmt.Sprintf(`"datr":"%s"`, e.datr), `"codr":"4/5"`)
+	if e.omit&1 == 0 {
+		parts = append(parts, fmt.Sprintf(`"rssi":%d`, e.rssi))
+	}
+	if e.omit&2 == 0 {
+		parts = append(parts, fmt.Sprintf(`"lsnr":%s`, e.lsnr))
+	}
+	parts = append(parts, fmt.Sprintf(`"size":%d`, len(e.data)), fmt.Sprintf(`"data":"%s"`, d))
+	return "{" + strings.Join(parts, ",") + extra + "}"
+}
+
+// the values the entry's keys read as
+func (e rxEntry) effective() rxEntry {
+	if e.omit&1 != 0 {
+		e.rssi = 0
+	}
+	if e.omit&2 != 0 {
+		e.lsnr = "0"
+	}
+	if e.omit&4 != 0 {
+		e.tmst = 0
+	}
+	if e.omit&8 != 0 {
+		e.ch = 0
+	}
+	if e.omit&16 != 0 {
+		e.rfch = 0
+	}
+	return e
 }
 
 func header(ver byte, token uint16, ident byte, eui uint64) []byte {
@@ -340,7 +392,12 @@ func runGwHistory(rng *rand.Rand, w *Writer, suite string, malformed bool) {
 				if rng.Intn(3) != 0 {
 					en.ch = uint8(rng.Intn(8))
 				}
+				if rng.Intn(5) == 0 {
+					en.omit = 1 + rng.Intn(31)
+					w.Count("gw.entry-with-omitted-keys")
+				}
 				js = append(js, entryJSON(en))
+				en = en.effective()
 				d := hx(en.data)
 				if en.badB64 {
 					d = "!"
